@@ -9,7 +9,7 @@ use blots_core::units::{self, ConversionType, Unit};
 use proptest::prelude::*;
 use serde::{Deserialize, Serialize};
 
-pub const RULE: &str = "exhaustive over get_all_units(): every identifier (exact resolution), upper/lower/title/swapped case variants of every identifier (resolution iff unambiguous, computed independently over the table), every identifier against the unit's first identifier (identical behaviour, bitwise), every ordered pair of identifiers of the whole table (same category: bitwise the result of the units' first identifiers; different categories: must fail), every ordered same-category pair and every same-category triple x a magnitude set (identity, there-and-back, composition), every cross-category ordered pair (must fail), SI-prefixed names vs their base (power-of-ten ratio), random non-identifiers (must fail), and a sample through the `convert` built-in; thorough adds all magnitudes 0, +-1e-12..+-1e12, 7.25 and random values. Non-trivial = a law instance involving two distinct units (or an identifier that is not the unit's first); distinct by (law, identifiers, magnitude).";
+pub const RULE: &str = "exhaustive over get_all_units(): every identifier (exact resolution), upper/lower/title/swapped case variants of every identifier (resolution iff unambiguous, computed independently over the table), every identifier against the unit's first identifier (identical behaviour, bitwise), every ordered pair of identifiers of the whole table (same category: bitwise the result of the units' first identifiers; different categories: must fail), every ordered same-category pair and every same-category triple x a magnitude set (identity, there-and-back, composition), every cross-category ordered pair (must fail), SI-prefixed names vs their base (power-of-ten ratio), random non-identifiers (must fail, also with the same non-identifier on both sides and through the built-in), every ordered pair of spellings that differ only by letter case converted one after the other in one thread (the second must behave as in a fresh thread), and a sample through the `convert` built-in; thorough adds all magnitudes 0, +-1e-12..+-1e12, 7.25 and random values. Non-trivial = a law instance involving two distinct units (or an identifier that is not the unit's first); distinct by (law, identifiers, magnitude).";
 pub const ASSUMPTIONS: &[&str] = &[
     "multi-step paths are held to a rounding bound: relative 16*eps for multiplicative (linear / reciprocal) units, absolute 32*eps*max(|values involved|, 500) for the affine temperature scales",
     "internally consistent laws cannot detect a mistyped coefficient; only the SI-prefix ratio law compares coefficients with an external table (harness prefix list)",
@@ -29,6 +29,9 @@ pub enum Case {
     Builtin { a: String, b: String, v: F },
     /// every ordered pair of identifiers: (ia, ib) must behave like the first identifiers (fa, fb) of their units
     IdentPair { ia: String, ib: String, fa: String, fb: String, same_category: bool },
+    /// two conversions one after the other in one thread, the second spelled like the first up to
+    /// letter case: its outcome must be what it is in a thread that has done nothing before
+    Sequence { first: (String, String), second: (String, String) },
 }
 
 pub struct Units;
@@ -208,6 +211,32 @@ impl Check for Units {
                     _ => fail!(format!("identifier-pair-differs:{}->{}", ia, ib), "convert(7.25, {:?}, {:?}) = {:?} but with the units' first identifiers convert(7.25, {:?}, {:?}) = {:?}", ia, ib, got, fa, fb, want),
                 }
             }
+            Case::Sequence { first, second } => {
+                ctx.label("sequence:case-variant-after");
+                ctx.nontrivial(hash_str(&format!("seq|{:?}|{:?}", first, second)));
+                let (f, sd) = (first.clone(), second.clone());
+                let fresh = std::thread::spawn(move || conv(7.25, &sd.0, &sd.1)).join().map_err(|_| crate::engine::Failure::new("sequence:panic", "conversion panicked".to_string()))?;
+                let sd = second.clone();
+                let after = std::thread::spawn(move || {
+                    let _ = conv(7.25, &f.0, &f.1);
+                    conv(7.25, &sd.0, &sd.1)
+                })
+                .join()
+                .map_err(|_| crate::engine::Failure::new("sequence:panic", "conversion panicked".to_string()))?;
+                let same = match (&fresh, &after) {
+                    (Ok(p), Ok(q)) => p.to_bits() == q.to_bits(),
+                    (Err(_), Err(_)) => true,
+                    _ => false,
+                };
+                if !same {
+                    fail!(
+                        format!("sequence-dependent:{}->{}", second.0, second.1),
+                        "convert(7.25, {:?}, {:?}) = {:?} in a fresh thread, but {:?} right after convert(7.25, {:?}, {:?}) in the same thread",
+                        second.0, second.1, fresh, after, first.0, first.1
+                    );
+                }
+                Ok(())
+            }
             Case::Pair { a, b, v } => {
                 ctx.label(if a == b { "self-conversion" } else { "there-and-back" });
                 if a != b {
@@ -277,8 +306,16 @@ impl Check for Units {
                 if let Ok(u) = units::resolve_unit(text) {
                     fail!("unknown-identifier-resolved", "{:?} is not in the table but resolves to {:?}", text, u.identifiers);
                 }
-                if conv(1.0, text, "meters").is_ok() || conv(1.0, "meters", text).is_ok() {
+                if conv(1.0, text, "meters").is_ok() || conv(1.0, "meters", text).is_ok() || conv(1.0, text, text).is_ok() {
                     fail!("unknown-identifier-converted", "convert accepts unknown unit {:?}", text);
+                }
+                // through the evaluator's built-in, the same identifier on both sides included
+                let sess = Sess::new();
+                sess.bind("u", &s(text));
+                for src in ["convert(5, u, u)", "convert(5, u, \"meters\")", "convert(5, \"meters\", u)"] {
+                    if let Ok(v) = sess.probe(src) {
+                        fail!("unknown-identifier-converted:built-in", "`{}` with u = {:?} (not a unit) gave {:?}", src, text, v);
+                    }
                 }
                 Ok(())
             }
@@ -400,6 +437,44 @@ pub fn run(ctx: &mut Ctx) {
             for ia in a.identifiers {
                 for ib in b.identifiers {
                     cases.push(Case::IdentPair { ia: ia.to_string(), ib: ib.to_string(), fa: a.identifiers[0].to_string(), fb: b.identifiers[0].to_string(), same_category: a.category == b.category });
+                }
+            }
+        }
+    }
+    // spellings that differ only by letter case: identifiers of different units, and every
+    // upper / lower pattern of short identifiers (ambiguous or unknown spellings included)
+    {
+        let ids: Vec<String> = all.iter().flat_map(|u| u.identifiers.iter().map(|i| i.to_string())).collect();
+        let mut groups: std::collections::BTreeMap<String, Vec<String>> = std::collections::BTreeMap::new();
+        for id in &ids {
+            let e = groups.entry(id.to_lowercase()).or_default();
+            if !e.contains(id) {
+                e.push(id.clone());
+            }
+        }
+        for (low, members) in groups.iter_mut() {
+            if members.len() < 2 {
+                continue;
+            }
+            let chars: Vec<char> = low.chars().collect();
+            if chars.len() <= 4 {
+                for mask in 0u32..(1 << chars.len()) {
+                    let v: String = chars.iter().enumerate().map(|(i, c)| if mask >> i & 1 == 1 { c.to_uppercase().collect::<String>() } else { c.to_string() }).collect();
+                    if !members.contains(&v) {
+                        members.push(v);
+                    }
+                }
+            }
+            // a partner unit of the first member's category, so that conversions can succeed
+            let unit = all.iter().find(|u| u.identifiers.iter().any(|i| *i == members[0])).unwrap();
+            let partner = all.iter().find(|w| w.category == unit.category && !same_unit(w, unit)).unwrap_or(unit).identifiers[0].to_string();
+            for x in members.iter() {
+                for y in members.iter() {
+                    if x != y {
+                        cases.push(Case::Sequence { first: (x.clone(), partner.clone()), second: (y.clone(), partner.clone()) });
+                        cases.push(Case::Sequence { first: (partner.clone(), x.clone()), second: (partner.clone(), y.clone()) });
+                        cases.push(Case::Sequence { first: (x.clone(), x.clone()), second: (y.clone(), y.clone()) });
+                    }
                 }
             }
         }
